@@ -161,7 +161,7 @@ func (w *world) newNode(store db.KeyValueStore) *chain.Node {
 	if w.fd != nil {
 		before = w.fd.Count()
 	}
-	_, _ = queryEvents(n, 1, true, w.lo)
+	forceInit(n, store, w.lo)
 	if w.fd != nil && w.fd.Count() > before {
 		// the initialisation itself wrote to the database (a fill rolled over a window end and persisted
 		// the window directly): not modelled, see findings
